@@ -375,6 +375,25 @@ def _index_ok(idx, fnode, node):
     return False
 
 
+def rule_inval_source(ctx):
+    ctx.rule('C13.inval', 'the in-value of an __embed__ generator is what the consumer sent: it is rebound only from yields and embeds, never from '
+                          'a value read out of a source stream (`inval = stream.next(...)` feeds the source\'s own output back to it)')
+    n = 0
+    for fi in sorted(ctx.repo.functions.values(), key=lambda f: f.fq):
+        if not fi.module.name.startswith('sc3.seq.patterns') or fi.name != '__embed__' or len(fi.params) < 2:
+            continue
+        iv = fi.params[1]
+        n += 1
+        if fi.fq == 'sc3.seq.patterns.eventpatterns:Pchain.__embed__':
+            continue      # composition: the output of each chained stream is the input of the next, by definition of Pchain
+        bad = [norm(x) for x in walk_local(fi.node) if isinstance(x, ast.Assign) and any(isinstance(t, ast.Name) and t.id == iv for t in x.targets)
+               and isinstance(x.value, ast.Call) and isinstance(x.value.func, ast.Attribute) and x.value.func.attr == 'next']
+        ctx.ob('C13.inval', f'{fi.fq}:in-value-from-consumer', not bad,
+               f'{fi.qualname} rebinds its in-value with {bad}: the next element is polled with an output of the source instead of the value '
+               f'the consumer sent', fi.node, fi.module)
+    ctx.require(n >= 40, 'C13.inval', f'only {n} __embed__ generators found')
+
+
 def rule_working(ctx):
     ctx.rule('C13.once', 'a generator never hands out (yields, or passes bare to the function whose result it yields) a list that it goes on '
                          'writing by index: every item collected from the stream would be that one list in its final state')
@@ -387,7 +406,8 @@ def rule_working(ctx):
             continue
         written = {t.value.id for x in walk_local(fi.node) if isinstance(x, (ast.Assign, ast.AugAssign))
                    for t in (x.targets if isinstance(x, ast.Assign) else [x.target])
-                   if isinstance(t, ast.Subscript) and isinstance(t.value, ast.Name)}
+                   if isinstance(t, ast.Subscript) and isinstance(t.value, ast.Name)
+                   and any(isinstance(p_, (ast.For, ast.While)) for p_ in U.parent_chain(x))}   # 'keeps writing': the store is on a way round
         # ... and that it does not make anew on the way round: a name bound inside a loop is a fresh object per item
         rebound = {t.id for lp in walk_local(fi.node) if isinstance(lp, (ast.For, ast.While)) for x in ast.walk(lp)
                    if isinstance(x, ast.Assign) for t in x.targets if isinstance(t, ast.Name)}
@@ -505,10 +525,13 @@ def run(ctx):
     rule_fresh(ctx)
     rule_inval(ctx)
     rule_stop(ctx)
+    rule_inval_source(ctx)
     rule_working(ctx)
 
 
 MUTANTS = [
+    dict(rule='C13.inval', name='Pdrop feeds the dropped output back as in-value (fix reverted)', file='sc3/seq/patterns/filterpatterns.py',
+         old="                stream.next(inval)  # The dropped value is not the in value.", new="                inval = stream.next(inval)"),
     dict(rule='C13.once', name='Pproduct yields its working list (fix reverted)', file='sc3/seq/patterns/funcpatterns.py',
          old="                    inval = yield self.func(values[:])", new="                    inval = yield self.func(values)"),
     dict(rule='C13.inval', name='Pdiff primes its source outside the StopStream guard (seed C13-g)', file='sc3/seq/patterns/filterpatterns.py',
